@@ -97,8 +97,29 @@ package align
 //@   ensures [types]       sliceKind(reference) != sliceKind(query) ==> result1 != nil
 
 // (generated by /verif/tools/gen_align_contracts.py: the kernels come from one template per aligner, so do their contracts)
+// ---- the dynamic programming tables of the linear-gap kernels (C08) ----
+// <kind>Opt(a, alpha, rSeq, qSeq, i, j): the optimum score of aligning rSeq[:i] with qSeq[:j] as the textbook recurrence
+// defines it (global: gaps everywhere cost the matrix' gap column/row; local: floored at 0; fitted: a free reference
+// prefix). cell(i, j) is a marker, true everywhere: the recurrence is unfolded only for marked cells.
+//@ spec cell(i int, j int) bool
+//@ axiom forall i int, j int {cell(i, j)} :: cell(i, j)
+//@ spec nwOpt(a NW, alpha alphabet.Alphabet, rSeq alphabet.Letters, qSeq alphabet.Letters, i int, j int) int
+//@ axiom forall a NW, alpha alphabet.Alphabet, rSeq alphabet.Letters, qSeq alphabet.Letters, i int, j int {nwOpt(a, alpha, rSeq, qSeq, i, j), cell(i, j)} :: (i == 0 && j == 0 ==> nwOpt(a, alpha, rSeq, qSeq, i, j) == 0) && (i == 0 && j > 0 ==> nwOpt(a, alpha, rSeq, qSeq, i, j) == nwOpt(a, alpha, rSeq, qSeq, 0, j-1) + a[0][lidx(alpha, qSeq[j-1])]) && (i > 0 && j == 0 ==> nwOpt(a, alpha, rSeq, qSeq, i, j) == nwOpt(a, alpha, rSeq, qSeq, i-1, 0) + a[lidx(alpha, rSeq[i-1])][0]) && (i > 0 && j > 0 ==> nwOpt(a, alpha, rSeq, qSeq, i, j) == max(max(nwOpt(a, alpha, rSeq, qSeq, i-1, j-1) + a[lidx(alpha, rSeq[i-1])][lidx(alpha, qSeq[j-1])], nwOpt(a, alpha, rSeq, qSeq, i-1, j) + a[lidx(alpha, rSeq[i-1])][0]), nwOpt(a, alpha, rSeq, qSeq, i, j-1) + a[0][lidx(alpha, qSeq[j-1])]))
+//@ spec nwOptQ(a NW, alpha alphabet.Alphabet, rSeq alphabet.QLetters, qSeq alphabet.QLetters, i int, j int) int
+//@ axiom forall a NW, alpha alphabet.Alphabet, rSeq alphabet.QLetters, qSeq alphabet.QLetters, i int, j int {nwOptQ(a, alpha, rSeq, qSeq, i, j), cell(i, j)} :: (i == 0 && j == 0 ==> nwOptQ(a, alpha, rSeq, qSeq, i, j) == 0) && (i == 0 && j > 0 ==> nwOptQ(a, alpha, rSeq, qSeq, i, j) == nwOptQ(a, alpha, rSeq, qSeq, 0, j-1) + a[0][lidx(alpha, qSeq[j-1].L)]) && (i > 0 && j == 0 ==> nwOptQ(a, alpha, rSeq, qSeq, i, j) == nwOptQ(a, alpha, rSeq, qSeq, i-1, 0) + a[lidx(alpha, rSeq[i-1].L)][0]) && (i > 0 && j > 0 ==> nwOptQ(a, alpha, rSeq, qSeq, i, j) == max(max(nwOptQ(a, alpha, rSeq, qSeq, i-1, j-1) + a[lidx(alpha, rSeq[i-1].L)][lidx(alpha, qSeq[j-1].L)], nwOptQ(a, alpha, rSeq, qSeq, i-1, j) + a[lidx(alpha, rSeq[i-1].L)][0]), nwOptQ(a, alpha, rSeq, qSeq, i, j-1) + a[0][lidx(alpha, qSeq[j-1].L)]))
+//@ spec swOpt(a SW, alpha alphabet.Alphabet, rSeq alphabet.Letters, qSeq alphabet.Letters, i int, j int) int
+//@ axiom forall a SW, alpha alphabet.Alphabet, rSeq alphabet.Letters, qSeq alphabet.Letters, i int, j int {swOpt(a, alpha, rSeq, qSeq, i, j), cell(i, j)} :: ((i == 0 || j == 0) ==> swOpt(a, alpha, rSeq, qSeq, i, j) == 0) && (i > 0 && j > 0 ==> swOpt(a, alpha, rSeq, qSeq, i, j) == max(0, max(max(swOpt(a, alpha, rSeq, qSeq, i-1, j-1) + a[lidx(alpha, rSeq[i-1])][lidx(alpha, qSeq[j-1])], swOpt(a, alpha, rSeq, qSeq, i-1, j) + a[lidx(alpha, rSeq[i-1])][0]), swOpt(a, alpha, rSeq, qSeq, i, j-1) + a[0][lidx(alpha, qSeq[j-1])])))
+//@ spec swOptQ(a SW, alpha alphabet.Alphabet, rSeq alphabet.QLetters, qSeq alphabet.QLetters, i int, j int) int
+//@ axiom forall a SW, alpha alphabet.Alphabet, rSeq alphabet.QLetters, qSeq alphabet.QLetters, i int, j int {swOptQ(a, alpha, rSeq, qSeq, i, j), cell(i, j)} :: ((i == 0 || j == 0) ==> swOptQ(a, alpha, rSeq, qSeq, i, j) == 0) && (i > 0 && j > 0 ==> swOptQ(a, alpha, rSeq, qSeq, i, j) == max(0, max(max(swOptQ(a, alpha, rSeq, qSeq, i-1, j-1) + a[lidx(alpha, rSeq[i-1].L)][lidx(alpha, qSeq[j-1].L)], swOptQ(a, alpha, rSeq, qSeq, i-1, j) + a[lidx(alpha, rSeq[i-1].L)][0]), swOptQ(a, alpha, rSeq, qSeq, i, j-1) + a[0][lidx(alpha, qSeq[j-1].L)])))
+//@ spec fitOpt(a Fitted, alpha alphabet.Alphabet, rSeq alphabet.Letters, qSeq alphabet.Letters, i int, j int) int
+//@ axiom forall a Fitted, alpha alphabet.Alphabet, rSeq alphabet.Letters, qSeq alphabet.Letters, i int, j int {fitOpt(a, alpha, rSeq, qSeq, i, j), cell(i, j)} :: (j == 0 ==> fitOpt(a, alpha, rSeq, qSeq, i, j) == 0) && (i == 0 && j > 0 ==> fitOpt(a, alpha, rSeq, qSeq, i, j) == fitOpt(a, alpha, rSeq, qSeq, 0, j-1) + a[0][lidx(alpha, qSeq[j-1])]) && (i > 0 && j > 0 ==> fitOpt(a, alpha, rSeq, qSeq, i, j) == max(max(fitOpt(a, alpha, rSeq, qSeq, i-1, j-1) + a[lidx(alpha, rSeq[i-1])][lidx(alpha, qSeq[j-1])], fitOpt(a, alpha, rSeq, qSeq, i-1, j) + a[lidx(alpha, rSeq[i-1])][0]), fitOpt(a, alpha, rSeq, qSeq, i, j-1) + a[0][lidx(alpha, qSeq[j-1])]))
+//@ spec fitOptQ(a Fitted, alpha alphabet.Alphabet, rSeq alphabet.QLetters, qSeq alphabet.QLetters, i int, j int) int
+//@ axiom forall a Fitted, alpha alphabet.Alphabet, rSeq alphabet.QLetters, qSeq alphabet.QLetters, i int, j int {fitOptQ(a, alpha, rSeq, qSeq, i, j), cell(i, j)} :: (j == 0 ==> fitOptQ(a, alpha, rSeq, qSeq, i, j) == 0) && (i == 0 && j > 0 ==> fitOptQ(a, alpha, rSeq, qSeq, i, j) == fitOptQ(a, alpha, rSeq, qSeq, 0, j-1) + a[0][lidx(alpha, qSeq[j-1].L)]) && (i > 0 && j > 0 ==> fitOptQ(a, alpha, rSeq, qSeq, i, j) == max(max(fitOptQ(a, alpha, rSeq, qSeq, i-1, j-1) + a[lidx(alpha, rSeq[i-1].L)][lidx(alpha, qSeq[j-1].L)], fitOptQ(a, alpha, rSeq, qSeq, i-1, j) + a[lidx(alpha, rSeq[i-1].L)][0]), fitOptQ(a, alpha, rSeq, qSeq, i, j-1) + a[0][lidx(alpha, qSeq[j-1].L)]))
+
+
 //@ func (NW).alignLetters
 //@   property C09
+//@   property C08
 //@   maypanic
 //@   requires alpha != nil && allocated(idxRef(alpha))
 //@   ensures [pairs] result1 == nil ==> forall k int :: 0 <= k && k < len(result0) ==> wfPair(result0[k], len(rSeq), len(qSeq))
@@ -125,9 +146,30 @@ package align
 //@   loop 9 invariant [pairs] forall k int :: 0 <= k && k < len(aln) ==> wfPair(aln[k], len(rSeq), len(qSeq))
 //@   loop 9 invariant [span] len(aln) > 0 ==> (i == 0 ==> aln[len(aln)-1].(*featPair).a.start == 0 && aln[len(aln)-1].(*featPair).b.start == 0 && aln[0].(*featPair).a.end == len(rSeq) && aln[0].(*featPair).b.end == len(qSeq)) && (i > 0 ==> aln[0].(*featPair).a.start == 0 && aln[0].(*featPair).b.start == 0 && aln[len(aln)-1].(*featPair).a.end == len(rSeq) && aln[len(aln)-1].(*featPair).b.end == len(qSeq))
 //@   loop 9 writes fresh
+//@   loop 1 invariant [la] forall x int, y int {old(a[x][y])} :: 0 <= x && x < idx && 0 <= y && y < let ==> la[x*let+y] == old(a[x][y])
+//@   loop 1 writes fresh
+//@   loop 2 invariant [la] forall x int, y int {old(a[x][y])} :: 0 <= x && x < let && 0 <= y && y < let ==> la[x*let+y] == old(a[x][y])
+//@   loop 3 invariant [la] forall x int, y int {old(a[x][y])} :: 0 <= x && x < let && 0 <= y && y < let ==> la[x*let+y] == old(a[x][y])
+//@   loop 4 invariant [la] forall x int, y int {old(a[x][y])} :: 0 <= x && x < let && 0 <= y && y < let ==> la[x*let+y] == old(a[x][y])
+//@   loop 5 invariant [la] forall x int, y int {old(a[x][y])} :: 0 <= x && x < let && 0 <= y && y < let ==> la[x*let+y] == old(a[x][y])
+//@   loop 6 invariant [la] forall x int, y int {old(a[x][y])} :: 0 <= x && x < let && 0 <= y && y < let ==> la[x*let+y] == old(a[x][y])
+//@   loop 7 invariant [la] forall x int, y int {old(a[x][y])} :: 0 <= x && x < let && 0 <= y && y < let ==> la[x*let+y] == old(a[x][y])
+//@   loop 4 invariant [dp-row0] forall j2 int {nwOpt(a, alpha, rSeq, qSeq, 0, j2)} :: 0 <= j2 && j2 <= idx ==> proving(cell(0, j2)) && table[j2] == nwOpt(a, alpha, rSeq, qSeq, 0, j2)
+//@   loop 5 invariant [dp-row0] forall j2 int {nwOpt(a, alpha, rSeq, qSeq, 0, j2)} :: 0 <= j2 && j2 < c ==> proving(cell(0, j2)) && table[j2] == nwOpt(a, alpha, rSeq, qSeq, 0, j2)
+//@   loop 5 invariant [dp-col0] forall i2 int {nwOpt(a, alpha, rSeq, qSeq, i2, 0)} :: 0 <= i2 && i2 < i ==> proving(cell(i2, 0)) && table[i2*c] == nwOpt(a, alpha, rSeq, qSeq, i2, 0)
+//@   loop 5 invariant [dp-prev] proving(cell(i-1, 0)) && table[(i-1)*c] == nwOpt(a, alpha, rSeq, qSeq, i-1, 0)
+//@   loop 6 invariant [dp-col0] forall i2 int {nwOpt(a, alpha, rSeq, qSeq, i2, 0)} :: 0 <= i2 && i2 < r ==> proving(cell(i2, 0)) && table[i2*c] == nwOpt(a, alpha, rSeq, qSeq, i2, 0)
+//@   loop 6 invariant [dp-done] forall i2 int, j2 int {nwOpt(a, alpha, rSeq, qSeq, i2, j2)} :: 0 <= i2 && i2 < i && 0 <= j2 && j2 < c ==> proving(cell(i2, j2)) && table[i2*c+j2] == nwOpt(a, alpha, rSeq, qSeq, i2, j2)
+//@   loop 6 invariant [dp-prev] forall j2 int {nwOpt(a, alpha, rSeq, qSeq, i-1, j2)} :: 0 <= j2 && j2 < c ==> proving(cell(i-1, j2)) && table[(i-1)*c+j2] == nwOpt(a, alpha, rSeq, qSeq, i-1, j2)
+//@   loop 7 invariant [dp-col0] forall i2 int {nwOpt(a, alpha, rSeq, qSeq, i2, 0)} :: 0 <= i2 && i2 < r ==> proving(cell(i2, 0)) && table[i2*c] == nwOpt(a, alpha, rSeq, qSeq, i2, 0)
+//@   loop 7 invariant [dp-done] forall i2 int, j2 int {nwOpt(a, alpha, rSeq, qSeq, i2, j2)} :: 0 <= i2 && i2 < i && 0 <= j2 && j2 < c ==> proving(cell(i2, j2)) && table[i2*c+j2] == nwOpt(a, alpha, rSeq, qSeq, i2, j2)
+//@   loop 7 invariant [dp-prev] forall j2 int {nwOpt(a, alpha, rSeq, qSeq, i-1, j2)} :: 0 <= j2 && j2 < c ==> proving(cell(i-1, j2)) && table[(i-1)*c+j2] == nwOpt(a, alpha, rSeq, qSeq, i-1, j2)
+//@   loop 7 invariant [dp-cur] forall j2 int {nwOpt(a, alpha, rSeq, qSeq, i, j2)} :: 0 <= j2 && j2 < j ==> proving(cell(i, j2)) && table[i*c+j2] == nwOpt(a, alpha, rSeq, qSeq, i, j2)
+//@   loop 8 invariant [dp] forall i2 int, j2 int {nwOpt(a, alpha, rSeq, qSeq, i2, j2)} :: 0 <= i2 && i2 < r && 0 <= j2 && j2 < c ==> proving(cell(i2, j2)) && table[i2*c+j2] == nwOpt(a, alpha, rSeq, qSeq, i2, j2)
 
 //@ func (NW).alignQLetters
 //@   property C09
+//@   property C08
 //@   maypanic
 //@   requires alpha != nil && allocated(idxRef(alpha))
 //@   ensures [pairs] result1 == nil ==> forall k int :: 0 <= k && k < len(result0) ==> wfPair(result0[k], len(rSeq), len(qSeq))
@@ -154,9 +196,30 @@ package align
 //@   loop 9 invariant [pairs] forall k int :: 0 <= k && k < len(aln) ==> wfPair(aln[k], len(rSeq), len(qSeq))
 //@   loop 9 invariant [span] len(aln) > 0 ==> (i == 0 ==> aln[len(aln)-1].(*featPair).a.start == 0 && aln[len(aln)-1].(*featPair).b.start == 0 && aln[0].(*featPair).a.end == len(rSeq) && aln[0].(*featPair).b.end == len(qSeq)) && (i > 0 ==> aln[0].(*featPair).a.start == 0 && aln[0].(*featPair).b.start == 0 && aln[len(aln)-1].(*featPair).a.end == len(rSeq) && aln[len(aln)-1].(*featPair).b.end == len(qSeq))
 //@   loop 9 writes fresh
+//@   loop 1 invariant [la] forall x int, y int {old(a[x][y])} :: 0 <= x && x < idx && 0 <= y && y < let ==> la[x*let+y] == old(a[x][y])
+//@   loop 1 writes fresh
+//@   loop 2 invariant [la] forall x int, y int {old(a[x][y])} :: 0 <= x && x < let && 0 <= y && y < let ==> la[x*let+y] == old(a[x][y])
+//@   loop 3 invariant [la] forall x int, y int {old(a[x][y])} :: 0 <= x && x < let && 0 <= y && y < let ==> la[x*let+y] == old(a[x][y])
+//@   loop 4 invariant [la] forall x int, y int {old(a[x][y])} :: 0 <= x && x < let && 0 <= y && y < let ==> la[x*let+y] == old(a[x][y])
+//@   loop 5 invariant [la] forall x int, y int {old(a[x][y])} :: 0 <= x && x < let && 0 <= y && y < let ==> la[x*let+y] == old(a[x][y])
+//@   loop 6 invariant [la] forall x int, y int {old(a[x][y])} :: 0 <= x && x < let && 0 <= y && y < let ==> la[x*let+y] == old(a[x][y])
+//@   loop 7 invariant [la] forall x int, y int {old(a[x][y])} :: 0 <= x && x < let && 0 <= y && y < let ==> la[x*let+y] == old(a[x][y])
+//@   loop 4 invariant [dp-row0] forall j2 int {nwOptQ(a, alpha, rSeq, qSeq, 0, j2)} :: 0 <= j2 && j2 <= idx ==> proving(cell(0, j2)) && table[j2] == nwOptQ(a, alpha, rSeq, qSeq, 0, j2)
+//@   loop 5 invariant [dp-row0] forall j2 int {nwOptQ(a, alpha, rSeq, qSeq, 0, j2)} :: 0 <= j2 && j2 < c ==> proving(cell(0, j2)) && table[j2] == nwOptQ(a, alpha, rSeq, qSeq, 0, j2)
+//@   loop 5 invariant [dp-col0] forall i2 int {nwOptQ(a, alpha, rSeq, qSeq, i2, 0)} :: 0 <= i2 && i2 < i ==> proving(cell(i2, 0)) && table[i2*c] == nwOptQ(a, alpha, rSeq, qSeq, i2, 0)
+//@   loop 5 invariant [dp-prev] proving(cell(i-1, 0)) && table[(i-1)*c] == nwOptQ(a, alpha, rSeq, qSeq, i-1, 0)
+//@   loop 6 invariant [dp-col0] forall i2 int {nwOptQ(a, alpha, rSeq, qSeq, i2, 0)} :: 0 <= i2 && i2 < r ==> proving(cell(i2, 0)) && table[i2*c] == nwOptQ(a, alpha, rSeq, qSeq, i2, 0)
+//@   loop 6 invariant [dp-done] forall i2 int, j2 int {nwOptQ(a, alpha, rSeq, qSeq, i2, j2)} :: 0 <= i2 && i2 < i && 0 <= j2 && j2 < c ==> proving(cell(i2, j2)) && table[i2*c+j2] == nwOptQ(a, alpha, rSeq, qSeq, i2, j2)
+//@   loop 6 invariant [dp-prev] forall j2 int {nwOptQ(a, alpha, rSeq, qSeq, i-1, j2)} :: 0 <= j2 && j2 < c ==> proving(cell(i-1, j2)) && table[(i-1)*c+j2] == nwOptQ(a, alpha, rSeq, qSeq, i-1, j2)
+//@   loop 7 invariant [dp-col0] forall i2 int {nwOptQ(a, alpha, rSeq, qSeq, i2, 0)} :: 0 <= i2 && i2 < r ==> proving(cell(i2, 0)) && table[i2*c] == nwOptQ(a, alpha, rSeq, qSeq, i2, 0)
+//@   loop 7 invariant [dp-done] forall i2 int, j2 int {nwOptQ(a, alpha, rSeq, qSeq, i2, j2)} :: 0 <= i2 && i2 < i && 0 <= j2 && j2 < c ==> proving(cell(i2, j2)) && table[i2*c+j2] == nwOptQ(a, alpha, rSeq, qSeq, i2, j2)
+//@   loop 7 invariant [dp-prev] forall j2 int {nwOptQ(a, alpha, rSeq, qSeq, i-1, j2)} :: 0 <= j2 && j2 < c ==> proving(cell(i-1, j2)) && table[(i-1)*c+j2] == nwOptQ(a, alpha, rSeq, qSeq, i-1, j2)
+//@   loop 7 invariant [dp-cur] forall j2 int {nwOptQ(a, alpha, rSeq, qSeq, i, j2)} :: 0 <= j2 && j2 < j ==> proving(cell(i, j2)) && table[i*c+j2] == nwOptQ(a, alpha, rSeq, qSeq, i, j2)
+//@   loop 8 invariant [dp] forall i2 int, j2 int {nwOptQ(a, alpha, rSeq, qSeq, i2, j2)} :: 0 <= i2 && i2 < r && 0 <= j2 && j2 < c ==> proving(cell(i2, j2)) && table[i2*c+j2] == nwOptQ(a, alpha, rSeq, qSeq, i2, j2)
 
 //@ func (SW).alignLetters
 //@   property C09
+//@   property C08
 //@   maypanic
 //@   requires alpha != nil && allocated(idxRef(alpha))
 //@   ensures [illegal-reference] len(qSeq) > 0 && (exists k int :: 0 <= k && k < len(rSeq) && lidx(alpha, rSeq[k]) < 0) ==> result1 != nil
@@ -180,9 +243,22 @@ package align
 //@   loop 5 invariant [aln] (arr(aln) == 0 && cap(aln) == 0) || (fresh(aln) && allocated(aln))
 //@   loop 5 invariant [pairs] forall k int :: 0 <= k && k < len(aln) ==> wfPair(aln[k], len(rSeq), len(qSeq))
 //@   loop 5 writes fresh
+//@   loop 1 invariant [la] forall x int, y int {old(a[x][y])} :: 0 <= x && x < idx && 0 <= y && y < let ==> la[x*let+y] == old(a[x][y])
+//@   loop 1 writes fresh
+//@   loop 2 invariant [la] forall x int, y int {old(a[x][y])} :: 0 <= x && x < let && 0 <= y && y < let ==> la[x*let+y] == old(a[x][y])
+//@   loop 3 invariant [la] forall x int, y int {old(a[x][y])} :: 0 <= x && x < let && 0 <= y && y < let ==> la[x*let+y] == old(a[x][y])
+//@   loop 2 invariant [dp-col0] forall i2 int {swOpt(a, alpha, rSeq, qSeq, i2, 0)} :: 0 <= i2 && i2 < r ==> proving(cell(i2, 0)) && table[i2*c] == swOpt(a, alpha, rSeq, qSeq, i2, 0)
+//@   loop 2 invariant [dp-done] forall i2 int, j2 int {swOpt(a, alpha, rSeq, qSeq, i2, j2)} :: 0 <= i2 && i2 < i && 0 <= j2 && j2 < c ==> proving(cell(i2, j2)) && table[i2*c+j2] == swOpt(a, alpha, rSeq, qSeq, i2, j2)
+//@   loop 2 invariant [dp-prev] forall j2 int {swOpt(a, alpha, rSeq, qSeq, i-1, j2)} :: 0 <= j2 && j2 < c ==> proving(cell(i-1, j2)) && table[(i-1)*c+j2] == swOpt(a, alpha, rSeq, qSeq, i-1, j2)
+//@   loop 3 invariant [dp-col0] forall i2 int {swOpt(a, alpha, rSeq, qSeq, i2, 0)} :: 0 <= i2 && i2 < r ==> proving(cell(i2, 0)) && table[i2*c] == swOpt(a, alpha, rSeq, qSeq, i2, 0)
+//@   loop 3 invariant [dp-done] forall i2 int, j2 int {swOpt(a, alpha, rSeq, qSeq, i2, j2)} :: 0 <= i2 && i2 < i && 0 <= j2 && j2 < c ==> proving(cell(i2, j2)) && table[i2*c+j2] == swOpt(a, alpha, rSeq, qSeq, i2, j2)
+//@   loop 3 invariant [dp-prev] forall j2 int {swOpt(a, alpha, rSeq, qSeq, i-1, j2)} :: 0 <= j2 && j2 < c ==> proving(cell(i-1, j2)) && table[(i-1)*c+j2] == swOpt(a, alpha, rSeq, qSeq, i-1, j2)
+//@   loop 3 invariant [dp-cur] forall j2 int {swOpt(a, alpha, rSeq, qSeq, i, j2)} :: 0 <= j2 && j2 < j ==> proving(cell(i, j2)) && table[i*c+j2] == swOpt(a, alpha, rSeq, qSeq, i, j2)
+//@   loop 4 invariant [dp] forall i2 int, j2 int {swOpt(a, alpha, rSeq, qSeq, i2, j2)} :: 0 <= i2 && i2 < r && 0 <= j2 && j2 < c ==> proving(cell(i2, j2)) && table[i2*c+j2] == swOpt(a, alpha, rSeq, qSeq, i2, j2)
 
 //@ func (SW).alignQLetters
 //@   property C09
+//@   property C08
 //@   maypanic
 //@   requires alpha != nil && allocated(idxRef(alpha))
 //@   ensures [illegal-reference] len(qSeq) > 0 && (exists k int :: 0 <= k && k < len(rSeq) && lidx(alpha, rSeq[k].L) < 0) ==> result1 != nil
@@ -206,9 +282,22 @@ package align
 //@   loop 5 invariant [aln] (arr(aln) == 0 && cap(aln) == 0) || (fresh(aln) && allocated(aln))
 //@   loop 5 invariant [pairs] forall k int :: 0 <= k && k < len(aln) ==> wfPair(aln[k], len(rSeq), len(qSeq))
 //@   loop 5 writes fresh
+//@   loop 1 invariant [la] forall x int, y int {old(a[x][y])} :: 0 <= x && x < idx && 0 <= y && y < let ==> la[x*let+y] == old(a[x][y])
+//@   loop 1 writes fresh
+//@   loop 2 invariant [la] forall x int, y int {old(a[x][y])} :: 0 <= x && x < let && 0 <= y && y < let ==> la[x*let+y] == old(a[x][y])
+//@   loop 3 invariant [la] forall x int, y int {old(a[x][y])} :: 0 <= x && x < let && 0 <= y && y < let ==> la[x*let+y] == old(a[x][y])
+//@   loop 2 invariant [dp-col0] forall i2 int {swOptQ(a, alpha, rSeq, qSeq, i2, 0)} :: 0 <= i2 && i2 < r ==> proving(cell(i2, 0)) && table[i2*c] == swOptQ(a, alpha, rSeq, qSeq, i2, 0)
+//@   loop 2 invariant [dp-done] forall i2 int, j2 int {swOptQ(a, alpha, rSeq, qSeq, i2, j2)} :: 0 <= i2 && i2 < i && 0 <= j2 && j2 < c ==> proving(cell(i2, j2)) && table[i2*c+j2] == swOptQ(a, alpha, rSeq, qSeq, i2, j2)
+//@   loop 2 invariant [dp-prev] forall j2 int {swOptQ(a, alpha, rSeq, qSeq, i-1, j2)} :: 0 <= j2 && j2 < c ==> proving(cell(i-1, j2)) && table[(i-1)*c+j2] == swOptQ(a, alpha, rSeq, qSeq, i-1, j2)
+//@   loop 3 invariant [dp-col0] forall i2 int {swOptQ(a, alpha, rSeq, qSeq, i2, 0)} :: 0 <= i2 && i2 < r ==> proving(cell(i2, 0)) && table[i2*c] == swOptQ(a, alpha, rSeq, qSeq, i2, 0)
+//@   loop 3 invariant [dp-done] forall i2 int, j2 int {swOptQ(a, alpha, rSeq, qSeq, i2, j2)} :: 0 <= i2 && i2 < i && 0 <= j2 && j2 < c ==> proving(cell(i2, j2)) && table[i2*c+j2] == swOptQ(a, alpha, rSeq, qSeq, i2, j2)
+//@   loop 3 invariant [dp-prev] forall j2 int {swOptQ(a, alpha, rSeq, qSeq, i-1, j2)} :: 0 <= j2 && j2 < c ==> proving(cell(i-1, j2)) && table[(i-1)*c+j2] == swOptQ(a, alpha, rSeq, qSeq, i-1, j2)
+//@   loop 3 invariant [dp-cur] forall j2 int {swOptQ(a, alpha, rSeq, qSeq, i, j2)} :: 0 <= j2 && j2 < j ==> proving(cell(i, j2)) && table[i*c+j2] == swOptQ(a, alpha, rSeq, qSeq, i, j2)
+//@   loop 4 invariant [dp] forall i2 int, j2 int {swOptQ(a, alpha, rSeq, qSeq, i2, j2)} :: 0 <= i2 && i2 < r && 0 <= j2 && j2 < c ==> proving(cell(i2, j2)) && table[i2*c+j2] == swOptQ(a, alpha, rSeq, qSeq, i2, j2)
 
 //@ func (Fitted).alignLetters
 //@   property C09
+//@   property C08
 //@   maypanic
 //@   requires alpha != nil && allocated(idxRef(alpha)) && len(qSeq) > 0
 //@   ensures [pairs] result1 == nil ==> forall k int :: 0 <= k && k < len(result0) ==> wfPair(result0[k], len(rSeq), len(qSeq))
@@ -237,9 +326,29 @@ package align
 //@   loop 10 invariant [aln] (arr(aln) == 0 && cap(aln) == 0) || (fresh(aln) && allocated(aln))
 //@   loop 10 invariant [pairs] forall k int :: 0 <= k && k < len(aln) ==> wfPair(aln[k], len(rSeq), len(qSeq))
 //@   loop 10 writes fresh
+//@   loop 1 invariant [la] forall x int, y int {old(a[x][y])} :: 0 <= x && x < idx && 0 <= y && y < let ==> la[x*let+y] == old(a[x][y])
+//@   loop 1 writes fresh
+//@   loop 2 invariant [la] forall x int, y int {old(a[x][y])} :: 0 <= x && x < let && 0 <= y && y < let ==> la[x*let+y] == old(a[x][y])
+//@   loop 3 invariant [la] forall x int, y int {old(a[x][y])} :: 0 <= x && x < let && 0 <= y && y < let ==> la[x*let+y] == old(a[x][y])
+//@   loop 4 invariant [la] forall x int, y int {old(a[x][y])} :: 0 <= x && x < let && 0 <= y && y < let ==> la[x*let+y] == old(a[x][y])
+//@   loop 5 invariant [la] forall x int, y int {old(a[x][y])} :: 0 <= x && x < let && 0 <= y && y < let ==> la[x*let+y] == old(a[x][y])
+//@   loop 6 invariant [la] forall x int, y int {old(a[x][y])} :: 0 <= x && x < let && 0 <= y && y < let ==> la[x*let+y] == old(a[x][y])
+//@   loop 4 invariant [dp-row0] forall j2 int {fitOpt(a, alpha, rSeq, qSeq, 0, j2)} :: 0 <= j2 && j2 <= idx ==> proving(cell(0, j2)) && table[j2] == fitOpt(a, alpha, rSeq, qSeq, 0, j2)
+//@   loop 4 invariant [dp-zero] forall k int :: idx < k && k < len(table) ==> table[k] == 0
+//@   loop 5 invariant [dp-col0] forall i2 int {fitOpt(a, alpha, rSeq, qSeq, i2, 0)} :: 0 <= i2 && i2 < r ==> proving(cell(i2, 0)) && table[i2*c] == fitOpt(a, alpha, rSeq, qSeq, i2, 0)
+//@   loop 5 invariant [dp-done] forall i2 int, j2 int {fitOpt(a, alpha, rSeq, qSeq, i2, j2)} :: 0 <= i2 && i2 < i && 0 <= j2 && j2 < c ==> proving(cell(i2, j2)) && table[i2*c+j2] == fitOpt(a, alpha, rSeq, qSeq, i2, j2)
+//@   loop 5 invariant [dp-prev] forall j2 int {fitOpt(a, alpha, rSeq, qSeq, i-1, j2)} :: 0 <= j2 && j2 < c ==> proving(cell(i-1, j2)) && table[(i-1)*c+j2] == fitOpt(a, alpha, rSeq, qSeq, i-1, j2)
+//@   loop 6 invariant [dp-col0] forall i2 int {fitOpt(a, alpha, rSeq, qSeq, i2, 0)} :: 0 <= i2 && i2 < r ==> proving(cell(i2, 0)) && table[i2*c] == fitOpt(a, alpha, rSeq, qSeq, i2, 0)
+//@   loop 6 invariant [dp-done] forall i2 int, j2 int {fitOpt(a, alpha, rSeq, qSeq, i2, j2)} :: 0 <= i2 && i2 < i && 0 <= j2 && j2 < c ==> proving(cell(i2, j2)) && table[i2*c+j2] == fitOpt(a, alpha, rSeq, qSeq, i2, j2)
+//@   loop 6 invariant [dp-prev] forall j2 int {fitOpt(a, alpha, rSeq, qSeq, i-1, j2)} :: 0 <= j2 && j2 < c ==> proving(cell(i-1, j2)) && table[(i-1)*c+j2] == fitOpt(a, alpha, rSeq, qSeq, i-1, j2)
+//@   loop 6 invariant [dp-cur] forall j2 int {fitOpt(a, alpha, rSeq, qSeq, i, j2)} :: 0 <= j2 && j2 < j ==> proving(cell(i, j2)) && table[i*c+j2] == fitOpt(a, alpha, rSeq, qSeq, i, j2)
+//@   loop 7 invariant [dp] forall i2 int, j2 int {fitOpt(a, alpha, rSeq, qSeq, i2, j2)} :: 0 <= i2 && i2 < r && 0 <= j2 && j2 < c ==> proving(cell(i2, j2)) && table[i2*c+j2] == fitOpt(a, alpha, rSeq, qSeq, i2, j2)
+//@   loop 8 invariant [dp] forall i2 int, j2 int {fitOpt(a, alpha, rSeq, qSeq, i2, j2)} :: 0 <= i2 && i2 < r && 0 <= j2 && j2 < c ==> proving(cell(i2, j2)) && table[i2*c+j2] == fitOpt(a, alpha, rSeq, qSeq, i2, j2)
+//@   loop 9 invariant [dp] forall i2 int, j2 int {fitOpt(a, alpha, rSeq, qSeq, i2, j2)} :: 0 <= i2 && i2 < r && 0 <= j2 && j2 < c ==> proving(cell(i2, j2)) && table[i2*c+j2] == fitOpt(a, alpha, rSeq, qSeq, i2, j2)
 
 //@ func (Fitted).alignQLetters
 //@   property C09
+//@   property C08
 //@   maypanic
 //@   requires alpha != nil && allocated(idxRef(alpha)) && len(qSeq) > 0
 //@   ensures [pairs] result1 == nil ==> forall k int :: 0 <= k && k < len(result0) ==> wfPair(result0[k], len(rSeq), len(qSeq))
@@ -268,6 +377,25 @@ package align
 //@   loop 10 invariant [aln] (arr(aln) == 0 && cap(aln) == 0) || (fresh(aln) && allocated(aln))
 //@   loop 10 invariant [pairs] forall k int :: 0 <= k && k < len(aln) ==> wfPair(aln[k], len(rSeq), len(qSeq))
 //@   loop 10 writes fresh
+//@   loop 1 invariant [la] forall x int, y int {old(a[x][y])} :: 0 <= x && x < idx && 0 <= y && y < let ==> la[x*let+y] == old(a[x][y])
+//@   loop 1 writes fresh
+//@   loop 2 invariant [la] forall x int, y int {old(a[x][y])} :: 0 <= x && x < let && 0 <= y && y < let ==> la[x*let+y] == old(a[x][y])
+//@   loop 3 invariant [la] forall x int, y int {old(a[x][y])} :: 0 <= x && x < let && 0 <= y && y < let ==> la[x*let+y] == old(a[x][y])
+//@   loop 4 invariant [la] forall x int, y int {old(a[x][y])} :: 0 <= x && x < let && 0 <= y && y < let ==> la[x*let+y] == old(a[x][y])
+//@   loop 5 invariant [la] forall x int, y int {old(a[x][y])} :: 0 <= x && x < let && 0 <= y && y < let ==> la[x*let+y] == old(a[x][y])
+//@   loop 6 invariant [la] forall x int, y int {old(a[x][y])} :: 0 <= x && x < let && 0 <= y && y < let ==> la[x*let+y] == old(a[x][y])
+//@   loop 4 invariant [dp-row0] forall j2 int {fitOptQ(a, alpha, rSeq, qSeq, 0, j2)} :: 0 <= j2 && j2 <= idx ==> proving(cell(0, j2)) && table[j2] == fitOptQ(a, alpha, rSeq, qSeq, 0, j2)
+//@   loop 4 invariant [dp-zero] forall k int :: idx < k && k < len(table) ==> table[k] == 0
+//@   loop 5 invariant [dp-col0] forall i2 int {fitOptQ(a, alpha, rSeq, qSeq, i2, 0)} :: 0 <= i2 && i2 < r ==> proving(cell(i2, 0)) && table[i2*c] == fitOptQ(a, alpha, rSeq, qSeq, i2, 0)
+//@   loop 5 invariant [dp-done] forall i2 int, j2 int {fitOptQ(a, alpha, rSeq, qSeq, i2, j2)} :: 0 <= i2 && i2 < i && 0 <= j2 && j2 < c ==> proving(cell(i2, j2)) && table[i2*c+j2] == fitOptQ(a, alpha, rSeq, qSeq, i2, j2)
+//@   loop 5 invariant [dp-prev] forall j2 int {fitOptQ(a, alpha, rSeq, qSeq, i-1, j2)} :: 0 <= j2 && j2 < c ==> proving(cell(i-1, j2)) && table[(i-1)*c+j2] == fitOptQ(a, alpha, rSeq, qSeq, i-1, j2)
+//@   loop 6 invariant [dp-col0] forall i2 int {fitOptQ(a, alpha, rSeq, qSeq, i2, 0)} :: 0 <= i2 && i2 < r ==> proving(cell(i2, 0)) && table[i2*c] == fitOptQ(a, alpha, rSeq, qSeq, i2, 0)
+//@   loop 6 invariant [dp-done] forall i2 int, j2 int {fitOptQ(a, alpha, rSeq, qSeq, i2, j2)} :: 0 <= i2 && i2 < i && 0 <= j2 && j2 < c ==> proving(cell(i2, j2)) && table[i2*c+j2] == fitOptQ(a, alpha, rSeq, qSeq, i2, j2)
+//@   loop 6 invariant [dp-prev] forall j2 int {fitOptQ(a, alpha, rSeq, qSeq, i-1, j2)} :: 0 <= j2 && j2 < c ==> proving(cell(i-1, j2)) && table[(i-1)*c+j2] == fitOptQ(a, alpha, rSeq, qSeq, i-1, j2)
+//@   loop 6 invariant [dp-cur] forall j2 int {fitOptQ(a, alpha, rSeq, qSeq, i, j2)} :: 0 <= j2 && j2 < j ==> proving(cell(i, j2)) && table[i*c+j2] == fitOptQ(a, alpha, rSeq, qSeq, i, j2)
+//@   loop 7 invariant [dp] forall i2 int, j2 int {fitOptQ(a, alpha, rSeq, qSeq, i2, j2)} :: 0 <= i2 && i2 < r && 0 <= j2 && j2 < c ==> proving(cell(i2, j2)) && table[i2*c+j2] == fitOptQ(a, alpha, rSeq, qSeq, i2, j2)
+//@   loop 8 invariant [dp] forall i2 int, j2 int {fitOptQ(a, alpha, rSeq, qSeq, i2, j2)} :: 0 <= i2 && i2 < r && 0 <= j2 && j2 < c ==> proving(cell(i2, j2)) && table[i2*c+j2] == fitOptQ(a, alpha, rSeq, qSeq, i2, j2)
+//@   loop 9 invariant [dp] forall i2 int, j2 int {fitOptQ(a, alpha, rSeq, qSeq, i2, j2)} :: 0 <= i2 && i2 < r && 0 <= j2 && j2 < c ==> proving(cell(i2, j2)) && table[i2*c+j2] == fitOptQ(a, alpha, rSeq, qSeq, i2, j2)
 
 //@ func (NWAffine).alignLetters
 //@   property C09
